@@ -144,6 +144,10 @@ def streams(tier, rng, P, only=None, cases=None):
             if name not in uses: uses.append(name)
             jp = "~{%s}={%s} %s" % (name, value, " ".join(uses)); mml_ = " ".join(value if u == name else u for u in uses)
             cs.append(dict(req="compile2 %s %s" % (hx(jp), hx(mml_)), jp=jp, mml=mml_, key="a%d" % i, show="%s  vs  %s" % (jp, mml_)))
+            # ... and through the object API (`SakuraCompiler::compile`), which runs the same preprocessor first
+            cs.append(dict(req="objseq en 0 %s %s" % (hx(jp), hx(mml_)), jp=jp, mml=mml_, key="ao%d" % i, show="[object API] %s  vs  %s" % (jp, mml_)))
+        for j, (jp, mml_) in enumerate([("~{do}={c}~{re}={d} l4 do re do", "l4 c d c"), ("ドレミ", "cde"), ("~{x1}={[2 e]} x1 c", "[2 e] c"), ("トラック2 ドレ", "TR=2 cd")]):
+            cs.append(dict(req="objseq en 0 %s %s" % (hx(jp), hx(mml_)), jp=jp, mml=mml_, key="aof%d" % j, show="[object API] %s  vs  %s" % (jp, mml_)))
         return cs
     def mk_midi_syn():
         # words the command reference documents as another word's synonym (`| クレッシェンド | 大きく(音長),(最終値)//… |`): same MIDI as that word
@@ -172,8 +176,12 @@ def streams(tier, rng, P, only=None, cases=None):
     def midi_judge(c, impl, m):
         st, f = impl
         if st != "ok": return None
+        if "bins" in f:
+            b = f["bins"].split(",")
+            if len(b) != 2 or b[0] != b[1]: return ("violation", "through the object API, Japanese notation / word definitions and the transliteration compile to different MIDI")
+            return None
         if f["bin1"] != f["bin2"]:
             return ("violation", "a word and the word the reference documents it as compile to different MIDI" if c["key"].startswith("syn-") else "Japanese notation and its transliteration compile to different MIDI")
         return None
-    s4 = Stream("midi", mcases, lambda c, st, f: [], midi_judge, lambda c, i, m: i[1].get("bin1"), "piece vs transliteration", timeout_case=20.0)
+    s4 = Stream("midi", mcases, lambda c, st, f: [], midi_judge, lambda c, i, m: i[1].get("bin1") or i[1].get("bins"), "piece vs transliteration", timeout_case=20.0)
     return [s for s in (s1, s2, s3, s4) if only in (None, s.name)]
